@@ -6,8 +6,9 @@ from mc import pool, wire, refms
 
 BODY1 = "keep;\r\n"
 BODY2 = "# c\r\nif true {\r\n  stop;\r\n}\r\n"
+BODY3 = "# a\u2028b\x0cc\x85d\r\nkeep;\r\n"
 EVENTS = [
-    ("listscripts",), ("getscript", "a"), ("getscript", "b"), ("putscript", "a", BODY1), ("putscript", "b", BODY2),
+    ("listscripts",), ("getscript", "a"), ("getscript", "b"), ("putscript", "a", BODY1), ("putscript", "b", BODY2), ("putscript", "b", BODY3),
     ("putscript", "a", BODY2), ("deletescript", "a"), ("deletescript", "b"), ("setactive", "a"), ("setactive", "b"),
     ("setactive", ""), ("renamescript", "a", "b"), ("renamescript", "b", "a"), ("havespace", "a", 10), ("checkscript", BODY1),
     ("capability",),
@@ -16,6 +17,7 @@ INITIAL = [
     ({}, None),
     ({"a": BODY1.encode()}, "a"),
     ({"a": BODY2.encode(), "b": BODY1.encode()}, "b"),
+    ({"a": BODY3.encode("utf-8")}, None),
 ]
 CUTS = [1, 2, 7]
 
